@@ -387,6 +387,29 @@ def failing_lemma(log):
     return "a lemma"
 
 
+def gen_history_cases(rng, n):
+    out = []
+    for _ in range(n):
+        if rng.random() < 0.6:
+            model = rng.choice(["spin", "spin_qn", "spin_qn", "holstein"])
+            base = {"kind": "mps", "model": model, "n": rng.randint(4, 6), "m_max": rng.randint(5, 8), "complex": rng.random() < 0.2,
+                    "dir": rng.choice(["left", "right"]), "seed": rng.randrange(2 ** 31)}
+        else:
+            nn = rng.randint(3, 6)
+            base = {"kind": "ttns", "parents": [-1] + [rng.randrange(i) for i in range(1, nn)], "qn": rng.random() < 0.5,
+                    "nb": rng.choice([2, 3]), "m_max": rng.randint(5, 8), "complex": False, "seed": rng.randrange(2 ** 31)}
+        k = rng.randint(3, 5)
+        ms = [rng.randint(1, 8) for _ in range(k)]
+        ms[0] = max(ms[0], 5)                      # a generous limit first ...
+        ms[1] = rng.randint(1, 3)                  # ... then a much smaller one (decreasing), later ones arbitrary
+        ops = []
+        for i in range(k):
+            ops.append({"derive": rng.choices(["copy", "add", "apply"], [5, 2, 2])[0], "how": "attr" if rng.random() < 0.7 else "fresh",
+                        "crit": rng.choices(["fixed", "both", "threshold"], [5, 3, 1])[0], "thr": rng.choice([1e-3, 0.05, 0.2]), "M": ms[i]})
+        out.append({"kind": "history", "base": base, "ops": ops})
+    return out
+
+
 def embed(script, call):
     """self-contained python snippet: the impl script's source + a call of its replay()"""
     src = open(os.path.join(common.VERIF, "harness", "impl", script)).read()
@@ -404,6 +427,7 @@ def run(ctx):
         "translator tx/trunc.py (python ast -> Gallina over Q; fail-closed; sigma_i/||sigma|| > thr rendered root-free as sigma_i^2 > thr^2*sum sigma^2, valid for sigma>=0, thr>0; nan (zero norm) modelled as 'compares False')",
         "correspondence harness/c05.py + harness/impl/c05_count.py: CompressConfig.compute_m_trunc of the real code vs the generated Gallina evaluated by vm_compute on the same rational cases (exact; near-ties within 1e-9 are not generated, exact ties only where the float norm is exact)",
         "sweep schedules (iter_idx_list, compress loop + temp_m_trunc branch, _update_ms cut bond, compress_node, compress_recursion, set_bonddim) are translated by tx/trunc.py; the reshape position of m_trunc in _update_ms, the bond_dims convention and node_idx[child] are read by verbatim pattern match (translator aborts on any change)",
+        "copies: CompressConfig.copy / MatrixProduct.metacopy / TTNS.metacopy translated into binding facts (fresh dict copy vs alias; copy() vs shared attribute); python object semantics modelled as a heap of attribute namespaces, arrays by value (no in-place writes into max_dims in configs.py: its assignment sites are checked by the translator)",
         "trace correspondence harness/impl/c05_trace.py: loggers wrapped around svd_qn / compute_m_trunc / set_bonddim / _update_ms / compress_node / truncate_tensors / push_cano_to_parent and logging limit containers; compared exactly with compress_trace / compress_dims / tree_compress_trace / tree_compress_dims under vm_compute (QR result dimensions passed as witness, validity after<=before checked)",
         "modelled, not verified: binary64 rounding in the comparison and in LAPACK's SVD; that svd_qn returns a descending, non-negative spectrum and a valid SVD (checked per run by the oracle: descending, first cut = dense spectrum)",
         "NOT proved: Ky Fan's maximum principle (explicit hypothesis ky_fan_principle of C05_bounds_partial, from which both spectral inequalities are derived for chains) and the tensor-product instantiation of the projector classes; both inequalities of the property are checked numerically against dense SVDs on every run (chains and trees)",
@@ -411,6 +435,7 @@ def run(ctx):
     ctx.assumptions += [
         "C05_error_identity / C05_nested_projection_pythagoras: nesting hypothesis  P_j psi_k = psi_k (j<k) -- satisfied by a one-directional sweep over a canonical chain (notes/C05.md), NOT by the tree sweep (error identity is not claimed for trees; measured gap reported)",
         "C05_bounds_partial / C05_left_projection_discard_partial / C05_eckart_young_partial: Ky Fan's maximum principle (K. Fan, PNAS 35 (1949) 652; Bhatia, Matrix Analysis, Problem I.6.15; Horn & Johnson 2nd ed. Cor. 4.3.39) is a hypothesis; further non-spectral hypotheses: projector_class, step projector is a member and keeps the top-m weight, left-block projectors commute with right-acting ones",
+        "C05_fresh_copy_uses_new_limit: the copied state's max_dims is None (never compressed); a filled max_dims is a cache that is NOT refreshed from bond_dim_max_value (C05_max_dims_cache) -- on HEAD, setting bond_dim_max_value on a copy of an already compressed state is ignored (notes/C05.md, suspected defect, not generated by the history stream)",
         "C05_tree_dims_after_compress: economic QR in push_cano_to_parent never increases the bond dimension (qr_dim c d <= d)",
     ]
     # 1. translator
@@ -518,12 +543,13 @@ def run(ctx):
     phases["trace correspondence"] = round(time.time() - t0 - sum(phases.values()), 1)
     # 3. dense oracle on the real code: always
     n_mps, n_ttns = (600, 220) if quick else (6000, 2000)
-    ocases = (json.load(open(CORPUS)).get("oracle", []) if os.path.exists(CORPUS) else []) + gen_oracle_cases(ctx.rng, n_mps, n_ttns)
+    ocases = (json.load(open(CORPUS)).get("oracle", []) if os.path.exists(CORPUS) else []) + gen_oracle_cases(ctx.rng, n_mps, n_ttns) \
+        + gen_history_cases(ctx.rng, 60 if quick else 600)
     per = 40
     ochunks = [ocases[i:i + per] for i in range(0, len(ocases), per)]
     ores = ctx.impl_par("c05_oracle.py", [{"cases": ch} for ch in ochunks], timeout=1500 if not quick else 400)
     o_fail = {}
-    o_stat = {"mps": 0, "ttns": 0, "truncating": 0, "skipped": 0, "tree_identity_gap_max": 0.0, "by_model": {}}
+    o_stat = {"mps": 0, "ttns": 0, "history": 0, "history_compress_calls": 0, "truncating": 0, "skipped": 0, "tree_identity_gap_max": 0.0, "by_model": {}}
     o_crash = None
     for (rc, res, out), ch in zip(ores, ochunks):
         if res is None:
@@ -535,7 +561,11 @@ def run(ctx):
                 o_stat["skipped"] += 1
                 continue
             o_stat[c["kind"]] += 1
-            key = c.get("model", "tree") + "/" + c["cfg"]["crit"]
+            if c["kind"] == "history":
+                key = "history/" + c["base"]["kind"]
+                o_stat["history_compress_calls"] += len(r["stats"].get("ops", []))
+            else:
+                key = c.get("model", "tree") + "/" + c["cfg"]["crit"]
             o_stat["by_model"][key] = o_stat["by_model"].get(key, 0) + 1
             if r["stats"].get("truncating"):
                 o_stat["truncating"] += 1
@@ -543,9 +573,10 @@ def run(ctx):
                 o_stat["tree_identity_gap_max"] = max(o_stat["tree_identity_gap_max"], r["stats"].get("identity_gap", 0.0))
             if not r["ok"]:
                 for f in r["fails"]:
-                    k = c["kind"] + "-compress:" + f["what"]
+                    k = c["kind"] + "-compress:" + f["what"].replace("history: ", "")
                     # prefer the smallest failing case per class
-                    size = c.get("n", len(c.get("parents", [])))
+                    size = c.get("n", len(c.get("parents", []))) if c["kind"] != "history" else \
+                        10 * len(c["ops"]) + c["base"].get("n", len(c["base"].get("parents", [])))
                     if k not in o_fail or size < o_fail[k][2]:
                         o_fail[k] = (c, r["fails"], size)
     if o_crash is not None and not o_fail:
@@ -563,7 +594,8 @@ def run(ctx):
                      "oracle_crash": o_crash}
     found_any = False
     prio = ["exception", "no state kept", "m outside [0, len]", "m exceeds the limit of the cut bond", "bond dimension exceeds limit",
-            "bond dimension < 1", "norm increased", "distance exceeds root of summed discarded weights of the original",
+            "bond dimension < 1", "configuration of the source state changed", "descendant shares the configuration object of the base",
+            "source state changed", "norm increased", "distance exceeds root of summed discarded weights of the original",
             "distance below the largest single-bond discarded weight", "error identity: dist^2 != sum of step discards",
             "norm identity: |psi|^2 - |psi'|^2 != dist^2", "kept a value below the threshold", "discarded a value above the threshold",
             "kept a singular value below the threshold", "discarded a singular value above the threshold"]
@@ -577,7 +609,7 @@ def run(ctx):
         ctx.violation("kept-count:" + what, "; ".join(broken) if broken else "kept-count invariant (oracle only)",
                       dict(detail_common, failing_case=c, impl_m=mi, violated=what, all_classes=sorted(inv_fail, key=rank)),
                       found=True, repro=embed("c05_count.py", c))
-    for kind in ("mps", "ttns"):
+    for kind in ("mps", "ttns", "history"):
         ks = sorted([k for k in o_fail if k.startswith(kind + "-compress:")], key=lambda k: rank(k.split(":", 1)[1]))
         if not ks:
             continue
@@ -590,10 +622,10 @@ def run(ctx):
         ctx.violation("c05-model", "; ".join(broken), detail_common, found=False)
     ctx.notes.append("oracle: %s" % json.dumps(o_stat, sort_keys=True))
     ctx.notes.append("tree sweep is not a nested projection sequence: max |dist^2 - sum of step discards| over the tree cases = %.3g (informational; the chain identity is checked to 1e-8)" % o_stat["tree_identity_gap_max"])
-    return {"evaluations": ev + o_stat["mps"] + o_stat["ttns"],
+    return {"evaluations": ev + o_stat["mps"] + o_stat["ttns"] + o_stat["history_compress_calls"],
             "distinct_nontrivial": len(nontriv) + o_stat["truncating"] + tr_compared,
             "rule": "kept-count correspondence: a case counts when impl and generated model agree AND it truncates (m < len sigma) or is an exact tie / zero-norm case, distinct by (criterion, threshold, limits, sigma, idx, left) [%d of %d]; oracle: a compress call counts when it discards weight (sum_b D_b > 1e-14 |psi|^2) [%d of %d]; trace: every compress() call whose logged schedule (site/node order, limit entry read, kept count per step, final dimensions) was compared exactly with the generated schedule [%d]"
-                    % (len(nontriv), ev - tr_compared, o_stat["truncating"], o_stat["mps"] + o_stat["ttns"], tr_compared),
+                    % (len(nontriv), ev - tr_compared, o_stat["truncating"], o_stat["mps"] + o_stat["ttns"] + o_stat["history"], tr_compared),
             "samples": samples[:3], "exhaustive": False,
             "input_distribution": {"kept_count_cases_by_kind_and_criterion": hist, "oracle": o_stat, "trace": tr_stats,
                                    "translator_preconditions": info["preconditions"] if info else None}}
